@@ -340,8 +340,10 @@ impl<R: Read, TSpec> TagIterator<R, TSpec>
             }
         }
 
-        if (self.allowed_errors & OVERSIZED_CHILD_ERROR == 0) && size.is_known() && self.is_invalid_tag_size(header_len + size.value()) {
-            return Err(TagIteratorError::CorruptedFileData(CorruptedFileError::OversizedChildElement{ position: self.current_offset(), tag_id, size: size.value()}));
+        // Elements of unknown size must at least fit their header into every known sized parent
+        let known_size = if size.is_known() { size.value() } else { 0 };
+        if (self.allowed_errors & OVERSIZED_CHILD_ERROR == 0) && self.is_invalid_tag_size(header_len + known_size) {
+            return Err(TagIteratorError::CorruptedFileData(CorruptedFileError::OversizedChildElement{ position: self.current_offset(), tag_id, size: known_size}));
         }
 
         if let Some(max_size) = self.max_allowed_tag_size {
